@@ -21,8 +21,9 @@ from pv import c22_gen
 TIERS = {
     # maxlen: history length; nsample: histories kept per invoke and setting
     # for each length >= 2; H range of the run-time maximum halo depth
-    "quick": {"maxlen": 2, "nsample": 4, "hmin": 1, "hmax": 3},
-    "thorough": {"maxlen": 3, "nsample": 12, "hmin": 1, "hmax": 4},
+    "quick": {"maxlen": 2, "nsample": 2, "hmin": 1, "hmax": 3, "lean": True},
+    "thorough": {"maxlen": 3, "nsample": 12, "hmin": 1, "hmax": 4,
+                 "lean": False},
 }
 
 
@@ -52,9 +53,9 @@ def _admissible(case, h, v):
     for s in case["steps"]:
         k = s["k"]
         if k in ("hex", "hexs", "hexf"):
-            if not 1 <= _ev(s["e"], h, v) <= h:
+            if not 0 <= _ev(s["e"], h, v) <= h:
                 return False
-            if s["g"]["t"] != "none" and not 1 <= _ev(s["g"], h, v) <= h:
+            if s["g"]["t"] != "none" and not 0 <= _ev(s["g"], h, v) <= h:
                 return False
         elif k == "clean":
             if not 0 <= _ev(s["e"], h, v) <= h:
@@ -95,7 +96,7 @@ def _valuations(nv, h):
         return [()]
     res = [()]
     for _ in range(nv):
-        res = [r + (x,) for r in res for x in range(1, h + 1)]
+        res = [r + (x,) for r in res for x in range(0, h + 1)]
     return res
 
 
@@ -173,7 +174,39 @@ def match_inc_to_max_depth(case, clause, detail, finding):
     return True
 
 
+def match_zero_depth_exchange(case, clause, detail, finding):
+    '''COMPUTE_ANNEXED_DOFS off; a loop over cells needs nothing but clean
+    annexed dofs of a continuous field, and the halo exchange generated just
+    before it for that purpose has a depth that evaluates to 0 at run time (a
+    variable stencil extent of 0 on owned cells, or max_halo_depth_mesh-1 on a
+    mesh of depth 1): is_dirty(depth=0) / halo_exchange(depth=0) are outside
+    the field API's range and refresh nothing.'''
+    if clause != "NoDirtyRead" or case["ann"]:
+        return False
+    if not detail or not detail.get("witnesses"):
+        return False
+    for wit in detail["witnesses"]:
+        pos = wit["pos"] - 1
+        step = case["steps"][pos]
+        if step["k"] != "loop" or step["kind"] != "cell" or pos == 0:
+            return False
+        if wit["why"] != "annexed" or not wit["w"]["cont"]:
+            return False
+        if wit["st"]["ann"] or wit["st"]["pend"] != "none":
+            return False
+        prev = case["steps"][pos - 1]
+        if prev["k"] != "hex":
+            return False
+        val = wit["w"]["val"]
+        if _ev(prev["e"], val["H"], val["v"]) != 0:
+            return False
+        if prev["g"]["t"] != "none" and _ev(prev["g"], val["H"], val["v"]) != 0:
+            return False
+    return True
+
+
 MATCHERS = {"c22_gh_write_reads_stale_annexed": match_gh_write_annexed,
+            "c22_zero_depth_exchange": match_zero_depth_exchange,
             "c22_inc_to_max_depth_after_literal_writer": match_inc_to_max_depth}
 
 _TLC_KEYS = {"loop": ("k", "kind", "ub", "d", "acc"), "hex": ("k", "g", "e"),
@@ -236,11 +269,15 @@ def generate(tier, cov, procs=None, files=None):
         # restricted corpus (binding demonstrations on a loaded machine)
         files = [f for f in os.environ["PV_C22_FILES"].split(",") if f]
     files = files or c22_gen.list_files()
-    # one job per (file, COMPUTE_ANNEXED_DOFS setting); big files first
+    # one job per file (both COMPUTE_ANNEXED_DOFS settings); big files first
     tdir = c22_gen.test_dir()
-    files = sorted(files, key=lambda f: (-os.path.getsize(os.path.join(tdir, f)), f))
-    jobs = [(f, par["maxlen"], par["nsample"], core.seed(), (ann,))
-            for f in files for ann in (False, True)]
+
+    def size(f):
+        return (len(c22_gen.generated_text(f)) if f in c22_gen.GENERATED
+                else os.path.getsize(os.path.join(tdir, f)))
+    files = sorted(files, key=lambda f: (-size(f), f))
+    jobs = [(f, par["maxlen"], par["nsample"], core.seed(), (False, True),
+             par["lean"]) for f in files]
     # import PSyclone before forking so that the workers inherit it
     import psyclone.parse.algorithm      # noqa
     import psyclone.psyGen               # noqa
@@ -349,7 +386,9 @@ def run(tier):
                    "component; traces_validated_against_impl = projected "
                    "(layer, component) pairs before de-duplication")
     return out.finish(cov, assumptions=[
-        "variable stencil extents range over 1..H (extent 0 is not meaningful)",
+        "variable stencil extents range over 0..H (0: the stencil is the cell "
+        "itself); is_dirty(depth=0) answers false and halo_exchange(depth=0) "
+        "exchanges nothing (both are outside the field API's range 1..H)",
         "a run-time valuation in which a depth of the generated code does not "
         "exist on the mesh (depth > H) is not a run of the program",
         "owned dofs always hold correct data; fields evolve independently "
